@@ -39,7 +39,7 @@ def name_ok(col, sid, module, test):
     if not NAME_RE.match(col):
         return False
     # a short prefix is how a name is kept from starting with a digit; the statement does not fix it
-    return col == want or (col.endswith(want) and len(col) - len(want) <= 3)
+    return col == want or (col.endswith(want) and len(col) - len(want) <= 8)
 
 
 def run(ctx) -> None:
@@ -138,6 +138,10 @@ def run(ctx) -> None:
             try:
                 store = PandasStore(st.run(cfg))
                 if do_agg:
+                    if rng.random() < 0.5:
+                        # history: the same store was already saved with the same options before the roll-up was added
+                        store.save(write_data=write_data, write_axes=write_axes, include=include, exclude=exclude)
+                        ctx.count("c19.save_aggregate_save_histories")
                     store.compute_aggregate()
                 df = store.save(write_data=write_data, write_axes=write_axes, include=include, exclude=exclude)
             except Exception as e:  # noqa: BLE001
